@@ -13,6 +13,7 @@ def step (st : DState) (line : String) : DState × String :=
   | "coord" :: rest => (st, Drv.Coord.handle rest)
   | "addr" :: rest => (st, Drv.Addr.handle rest)
   | "codec" :: rest => (st, Drv.Codec.handle rest)
+  | "ws" :: rest => (st, Drv.Ws.handle rest)
   | _ => (st, "bad-op")
 
 partial def loop (h : IO.FS.Stream) (out : IO.FS.Stream) (st : DState) : IO Unit := do
